@@ -84,6 +84,9 @@ _INGEST_RULE = ("generated CSV tables (1..4 columns; 0..2 blocks quick, 0..4 tho
                 "non-trivial = >255 rows or a spill or a >=130000-byte cell; distinct = distinct (op, input)")
 
 PROPS["C01"] = dict(
+    registered=True,
+    level_text='Kernel-checked theorems for every input table, key choice, run size and correct sort: the stored rows are exactly one input row per distinct key in strictly ascending key order (a permutation of the input when keys are unique), the row count matches, columns are kept, over-limit cells are refused with an error and nothing else is, the result is independent of row order / run size / sort, and every stored row reads back cell-for-cell at any size. Correspondence: ingest.IngestTable + GetTable/GetBlock == model on generated CSVs incl. 131072-byte cells, empty keys, duplicates.',
+    level_note=LEVEL_NOTE + 'encoding/csv tokenisation and s2 are trusted; worker-count independence is argued in C16 (the model is worker-agnostic because blocks are ordered by offset); the CLI commit/export path is not exercised by this check.',
     lean_modules=["WrglModel.Props.C01"],
     quick_n=240, thorough_n=3000, rule=_INGEST_RULE,
     modelled="pkg/sorter/sorter.go, pkg/ingest/inserter.go (ingestTableFromBlocks, sortBlocks), objects.StrListEncoder/Decoder, block codec",
@@ -91,6 +94,9 @@ PROPS["C01"] = dict(
                  "s2 compression round-trips", "the CLI path (wrgl commit / wrgl export) is covered by C13's CLI runs, not here"],
 )
 PROPS["C02"] = dict(
+    registered=True,
+    level_text='Kernel-checked: same columns/key/row set (unique keys) => same table identifier for all row orders, run sizes and sorts (no hash assumption); with an injective hash equal identifiers imply equal columns, key and rows. Correspondence: 5 real ingest configurations (permutation, spills, 1..8 workers, delimiter) give one sum, 5 single-edit mutants give different sums, and Table.WriteTo bytes == model tableBytes byte-for-byte.',
+    level_note=LEVEL_NOTE + "meow is a parameter: collision-freedom on the strings of a run is a hypothesis of C02_injective; delimiter independence is observed on the implementation only; 'no change detected' is the identifier comparison, observed by the runs.",
     lean_modules=["WrglModel.Props.C02"],
     quick_n=120, thorough_n=1500,
     rule="logical tables with unique keys ingested under 5 configurations (row permutation, spill sizes, 1..8 workers, delimiter) "
@@ -101,6 +107,9 @@ PROPS["C02"] = dict(
                  "delimiter independence is observed on the implementation only (CSV parsing is not modelled)"],
 )
 PROPS["C03"] = dict(
+    registered=True,
+    level_text="Kernel-checked theorem C03_ingest_inv: every table produced by the sorter/inserter pipeline satisfies all clauses of the decidable invariant tableInv (row count, 255-row blocks, strictly ascending keys, block index = (H key, H row) per row and sorted by key hash, table index = first key per block). The same tableInv is evaluated by Lean on every real table dump (with hashes recomputed by the harness) together with doctor's self-diagnosis; offsets b*255+i address row i of block b (C03_offsets).",
+    level_note=LEVEL_NOTE + "Producers covered by the theorem and runs: ingest (commit; merge results and doctor re-ingest go through the same sorter/inserter). Tables received over the wire are checked by C07's runs with the same predicate, not by a theorem here.",
     lean_modules=["WrglModel.Props.C03"],
     quick_n=240, thorough_n=3000, rule=_INGEST_RULE + "; producers: ingest (others are exercised by C05/C07 runs)",
     modelled="sorter block cutting and block keys, objects.IndexBlockFromBytes/IndexBlock (as the invariant they establish), doctor.diagnoseCommit (observed)",
@@ -143,6 +152,9 @@ PROPS["C15"] = dict(
 )
 
 PROPS["C17"] = dict(
+    registered=True,
+    level_text='Kernel-checked: on ANY byte string the modelled decoders (string list, block, uint list, table, commit, packfile header, packfile reader under every read mode and chunking) never panic, never exhaust their fuel (terminate), and their output is accounted for byte-by-byte by the input consumed. Correspondence on hostile inputs: outcome class and decoded value of the Go decoders == model for thousands of mutations incl. every truncation offset; Go-side panic/hang/allocation (TotalAlloc <= 256*len+8MiB) are checked for all 10 entry points and for ObjectReceiver.Receive.',
+    level_note=LEVEL_NOTE + "The allocation clause about the real Go runtime is measured, not proved (the theorem bounds the decoded value, the capped pre-allocation is a constant); s2.Decode's allocation is a dependency assumption; block index, pkt-line and table profile decoders are exercised but not modelled.",
     widen_n=3000,
     lean_modules=["WrglModel.Props.C17"],
     quick_n=600, thorough_n=12000,
@@ -154,6 +166,9 @@ PROPS["C17"] = dict(
     assumptions=["s2.Decode's own allocation on a forged length header is outside the model (dependency)", "block index, pkt-line, table profile decoders are exercised but not modelled"],
 )
 PROPS["C18"] = dict(
+    registered=True,
+    level_text="Kernel-checked: io.ReadFull over any chunking returns the next n bytes; the packfile reader with the read modes EXTRACTED FROM THE SOURCE gives the same objects/errors/end-of-stream for any two chunkings of the same bytes and equals the whole-buffer result; a single-Read site is proved chunk-dependent (witness). The fact 'no decoder site uses a single Read' is regenerated from /repo on every run and discharged by decide. Correspondence: 9 stream kinds under OneByteReader/HalfReader/DataErrReader/random chunkers vs whole-buffer and vs the model.",
+    level_note=LEVEL_NOTE + 'Partial: the chunk-independence THEOREM covers the packfile reader; for the other decoders (parser fields, table, block index, uint/float list, block) the tie is the extracted read-mode fact plus the correspondence runs. HTTP/gzip/TLS are represented by arbitrary chunkings.',
     lean_modules=["WrglModel.Props.C18"],
     quick_n=450, thorough_n=6000,
     rule="valid encoded streams of 9 kinds (packfile, commit, table, block, block index, string list, uint list, pkt-lines, table profile) decoded "
